@@ -107,12 +107,16 @@ func (v V) Sx() *sx.Node {
 			xs[i] = x.Sx()
 		}
 		return sx.T("l", xs...)
-	case "o", "fl":
+	case "o", "fl", "so":
 		xs := make([]*sx.Node, len(v.O))
 		for i, kv := range v.O {
 			xs[i] = sx.L(sx.S(kv.K), kv.V.Sx())
 		}
-		return sx.T(v.K, xs...)
+		tag := v.K
+		if tag == "so" {
+			tag = "o" // a struct input presents the same record as a map
+		}
+		return sx.T(tag, xs...)
 	case "x":
 		return sx.T("x", sx.A(v.Desc))
 	}
@@ -158,6 +162,30 @@ func (v V) Go() any {
 			out[i] = x.Go()
 		}
 		return out
+	case "so":
+		// a Go STRUCT value as input: one exported field per entry (StructDataProvider)
+		fs := make([]reflect.StructField, len(v.O))
+		vals := make([]any, len(v.O))
+		for i, kv := range v.O {
+			vals[i] = kv.V.Go()
+			t := reflect.TypeOf((*any)(nil)).Elem()
+			if vals[i] != nil {
+				t = reflect.TypeOf(vals[i])
+			}
+			fs[i] = reflect.StructField{Name: kv.K, Type: t}
+		}
+		sv := reflect.New(reflect.StructOf(fs)).Elem()
+		for i, x := range vals {
+			if x != nil {
+				sv.Field(i).Set(reflect.ValueOf(x))
+			}
+		}
+		if v.Typed {
+			p := reflect.New(sv.Type())
+			p.Elem().Set(sv)
+			return p.Interface() // a pointer to the struct
+		}
+		return sv.Interface()
 	case "o":
 		if v.Typed && len(v.O) > 0 {
 			if tm := typedMap(v.O); tm != nil {
